@@ -26,6 +26,11 @@ def gen_v1(rnd):
                 lines += ["[[%s.n.args]]" % root, 'type = "number"', ""]
                 lines += ["[%s.n]" % root, "method = true", ""] if rnd.random() < 0.5 else []
                 names.append(root + ".n")
+        elif kind == 7 and base and rnd.random() < 0.5:
+            # a nested table below a global the base defines: the base's other entries stay what they were
+            host = rnd.choice(["math", "_G", "arg", "string"])
+            lines += ["[%s.%sext]" % (host, root), "property = true", "", "[[string.%sfmt.args]]" % root, 'type = "string"', ""]
+            names.append("%s.%sext" % (host, root))
         elif kind == 7:
             lines += ["[%s.f]" % root, "args = []"] + (["method = false"] if rnd.random() < 0.5 else []) + [""]
             names.append(root + ".f")
@@ -76,6 +81,11 @@ def run(ctx):
         # the dialect is inherited from the base on both paths: syntax only that dialect has
         probe += {"lua52": "goto done\n::done::\n", "lua53": "local q7 = 7 // 2\nprint(q7)\n",
                   "luau": "local q7: number = 1\nq7 += 1\nprint(q7)\n"}.get(base, "")
+        # lines that are valid under the base whatever the derived library adds: they must stay free of diagnostics
+        base_ok = ""
+        if base:
+            base_ok = "print(math.floor(1.5), math.pi, string.rep(\"a\", 2), #string.format(\"%d\", 1)); _G.fresh_zz, arg.fresh_zz = 1, 2\n"
+            probe += base_ok
         open(os.path.join(d, "t", "mystd.toml"), "w").write(toml)
         open(os.path.join(d, "up.toml"), "w").write(toml)
         for sub in ("t", "y"):
@@ -96,6 +106,15 @@ def run(ctx):
         r2 = cli.run_selene(os.path.join(d, "y"), ["--display-style", "json2", "--num-threads", "1", "p.lua"])
         done += 1
         distinct.add(toml)
+        if base_ok:
+            # the base_ok line is the last line of the probe before the dialect lines were appended: find it by content
+            ln = probe.split("\n").index(base_ok.rstrip("\n")) + 1
+            bad = [l for l in (r1[1] + r2[1]).split("\n") if '"start_line":%d,' % (ln - 1) in l and '"incorrect_standard_library_use"' in l]
+            if bad:
+                rp = os.path.join(core.VERIF, "replays", "C17-upgrade-base-%d-seed%d.json" % (i, ctx["seed"]))
+                core.write_json(rp, {"property": "C17", "kind": "upgrade-std-base-entries", "toml": toml, "probe": probe, "line": ln, "diagnostics": bad[:4]})
+                violations.append({"kind": "spec", "replay": rp, "found_input": True,
+                                   "text": "a v1 library over base %s: entries of the base it does not mention are no longer what the base defines (case %d)" % (base, i)})
         if (r1[0], r1[1]) != (r2[0], r2[1]):
             rp = os.path.join(core.VERIF, "replays", "C17-upgrade-%d-seed%d.json" % (i, ctx["seed"]))
             core.write_json(rp, {"property": "C17", "kind": "upgrade-std", "toml": toml, "yml": open(os.path.join(d, "up.yml")).read(),
